@@ -105,6 +105,10 @@ mut("S22-set-extension-additions-sorted-by-tag", ["C05"], "asn1rs-model/src/gene
     "            (a.0, (!a.0).then_some(&a.1.tag)).cmp(&(b.0, (!b.0).then_some(&b.1.tag)))",
     "            (a.0, &a.1.tag).cmp(&(b.0, &b.1.tag))",
     "compiler side; the defect found by the generated version chains: only visible across versions of a SET with explicit tags whose later addition has a smaller tag")
+mut("S23-tag-resolution-without-memo", ["C14"], "asn1rs-model/src/asn/tag_resolver.rs",
+    "        if let Some(tag) = resolved.borrow().get(&key) {\n            return *tag;\n        }",
+    "        if let Some(tag) = resolved.borrow().get(&key).filter(|_| false) {\n            return *tag;\n        }",
+    "the defect a seeding sub-agent pointed out: exponential tag resolution for diamond shaped references; needs the corpus module diamond.asn1 (a hang under the watchdog)")
 
 def sh(cmd, cwd=None, timeout=3600):
     p = subprocess.run(cmd, shell=True, cwd=cwd, stdout=subprocess.PIPE, stderr=subprocess.STDOUT, text=True, timeout=timeout)
